@@ -250,6 +250,102 @@ Theorem panel_points_positions {V} off (rows : list (srow * V)) :
   map fst (panel_points off rows) = map (fun rv => (s_center (fst rv) - off)%Z) rows.
 Proof. unfold panel_points. rewrite map_map. reflexivity. Qed.
 
+(** ** M3b: the panel as drawn under x-limits (view restriction, interp and step branches) *)
+
+Lemma in_panel_view_iff n off r :
+  in_panel_view n off r = true <-> (off <= s_last r)%Z /\ (s_next r <= off + Z.of_nat n - 1)%Z.
+Proof.
+  unfold in_panel_view. rewrite andb_true_iff, Z.leb_le, Z.ltb_lt. lia.
+Qed.
+
+Lemma panel_rows_In {V} n off (rows : list (srow * V)) rv :
+  In rv (panel_rows n off rows) <->
+  In rv rows /\ (off <= s_last (fst rv))%Z /\ (s_next (fst rv) <= off + Z.of_nat n - 1)%Z.
+Proof.
+  unfold panel_rows. rewrite filter_In, in_panel_view_iff. reflexivity.
+Qed.
+
+(** with no restriction to apply (every row inside the view) the panel is the whole table *)
+Theorem panel_rows_all {V} n off (rows : list (srow * V)) :
+  (forall rv, In rv rows -> (off <= s_last (fst rv))%Z /\ (s_next (fst rv) <= off + Z.of_nat n - 1)%Z) ->
+  panel_rows n off rows = rows.
+Proof.
+  intros Hall. unfold panel_rows. induction rows as [|rv rows IH]; [reflexivity|].
+  cbn [filter].
+  assert (Hv : in_panel_view n off (fst rv) = true).
+  { apply in_panel_view_iff. apply Hall. left. reflexivity. }
+  rewrite Hv. f_equal. apply IH. intros rv' Hin. apply Hall. right. exact Hin.
+Qed.
+
+(** interp=True, completeness: every cycle lying entirely inside the view has a point at its centre
+    carrying its value *)
+Theorem panel_interp_complete {V} s0 n (rows : list (srow * V)) r v :
+  In (r, v) rows -> (s0 <= s_last r)%Z -> (s_next r <= s0 + Z.of_nat n - 1)%Z ->
+  In ((s_center r - s0)%Z, v) (panel_interp n s0 rows).
+Proof.
+  intros Hin Hlo Hhi. unfold panel_interp, panel_points. apply in_map_iff.
+  exists (r, v). split; [reflexivity|].
+  apply panel_rows_In. cbn [fst]. split; [exact Hin|]. split; assumption.
+Qed.
+
+(** interp=True, soundness: every point is the centre of a cycle of the table lying entirely inside
+    the view, with that cycle's value *)
+Theorem panel_interp_sound {V} s0 n (rows : list (srow * V)) q v :
+  In (q, v) (panel_interp n s0 rows) ->
+  exists r, In (r, v) rows /\ q = (s_center r - s0)%Z /\
+            (s0 <= s_last r)%Z /\ (s_next r <= s0 + Z.of_nat n - 1)%Z.
+Proof.
+  unfold panel_interp, panel_points. intros Hq. apply in_map_iff in Hq.
+  destruct Hq as ((r, v') & Heq & Hin). cbn [fst snd] in Heq.
+  injection Heq as Hq Hv. subst v'.
+  apply panel_rows_In in Hin. cbn [fst] in Hin. destruct Hin as (Hin & Hlo & Hhi).
+  exists r. split; [exact Hin|]. split; [symmetry; exact Hq|]. split; assumption.
+Qed.
+
+Theorem panel_interp_length_le {V} n off (rows : list (srow * V)) :
+  length (panel_interp n off rows) <= length rows.
+Proof.
+  unfold panel_interp. rewrite panel_points_length. unfold panel_rows. apply filter_length_le''.
+Qed.
+
+(** interp=False, completeness: every cycle lying entirely inside the view has a point at its last and
+    one at its next side extremum, both carrying its value *)
+Theorem panel_steps_complete {V} s0 n (rows : list (srow * V)) r v :
+  In (r, v) rows -> (s0 <= s_last r)%Z -> (s_next r <= s0 + Z.of_nat n - 1)%Z ->
+  In ((s_last r - s0)%Z, v) (panel_steps n s0 rows) /\ In ((s_next r - s0)%Z, v) (panel_steps n s0 rows).
+Proof.
+  intros Hin Hlo Hhi.
+  assert (Hr : In (r, v) (panel_rows n s0 rows)).
+  { apply panel_rows_In. cbn [fst]. split; [exact Hin|]. split; assumption. }
+  unfold panel_steps. split; apply in_flat_map; exists (r, v); (split; [exact Hr|]); cbn [fst snd].
+  - left. reflexivity.
+  - right. left. reflexivity.
+Qed.
+
+(** interp=False, soundness: every point sits on a side extremum of a cycle of the table lying entirely
+    inside the view, with that cycle's value *)
+Theorem panel_steps_sound {V} s0 n (rows : list (srow * V)) q v :
+  In (q, v) (panel_steps n s0 rows) ->
+  exists r, In (r, v) rows /\ (q = (s_last r - s0)%Z \/ q = (s_next r - s0)%Z) /\
+            (s0 <= s_last r)%Z /\ (s_next r <= s0 + Z.of_nat n - 1)%Z.
+Proof.
+  unfold panel_steps. intros Hq. apply in_flat_map in Hq.
+  destruct Hq as ((r, v') & Hin & Hq). cbn [fst snd] in Hq.
+  apply panel_rows_In in Hin. cbn [fst] in Hin. destruct Hin as (Hin & Hlo & Hhi).
+  destruct Hq as [Hq|[Hq|Hq]]; [| |destruct Hq]; injection Hq as Hq Hv; subst v';
+    exists r; (split; [exact Hin|]); (split; [|split; assumption]).
+  - left. symmetry. exact Hq.
+  - right. symmetry. exact Hq.
+Qed.
+
+(** interp=False draws exactly two points per drawn cycle, in table order *)
+Theorem panel_steps_length {V} n off (rows : list (srow * V)) :
+  length (panel_steps n off rows) = 2 * length (panel_rows n off rows).
+Proof.
+  unfold panel_steps. induction (panel_rows n off rows) as [|rv l IH]; [reflexivity|].
+  cbn [flat_map length app]. rewrite IH. lia.
+Qed.
+
 (* ------------------------------------------------------------------------------------------ *)
 (** * M4: the window offset.  0x1.47ae147ae147bp-7 is the double nearest 0.01, so
     29 * 0x1.47ae147ae147bp-7 is the time stamp numpy gives sample 29 at fs = 100
@@ -430,6 +526,16 @@ Proof. vm_compute. reflexivity. Qed.
 
 Example ex_panel_points :
   panel_points 10 [(Build_srow 13 12 15 0 0 0, 7); (Build_srow 17 15 19 0 0 0, 9)] = [(3%Z, 7); (7%Z, 9)].
+Proof. vm_compute. reflexivity. Qed.
+
+(* view = samples 10 .. 21 (n = 12): cycle [8, 12] starts before the view, [12, 15] and [15, 19] lie inside,
+   [19, 22] ends on the first sample after the view *)
+Definition prows : list (srow * nat) :=
+  [(Build_srow 10 8 12 0 0 0, 5); (Build_srow 13 12 15 0 0 0, 7); (Build_srow 17 15 19 0 0 0, 9);
+   (Build_srow 20 19 22 0 0 0, 11)].
+Example ex_panel_interp : panel_interp 12 10 prows = [(3%Z, 7); (7%Z, 9)].
+Proof. vm_compute. reflexivity. Qed.
+Example ex_panel_steps : panel_steps 12 10 prows = [(2%Z, 7); (5%Z, 7); (5%Z, 9); (9%Z, 9)].
 Proof. vm_compute. reflexivity. Qed.
 
 Example ex_offsets :
